@@ -79,7 +79,7 @@ def module(repo):
                      '(0 <= offset < label@.len() && label@[offset as int] as u32 == cp && val_ctx(val)) ==> r == pos_result(val, label@, offset as int)')]),
         Text(SPEC.replace("pub open spec fn spec_on<T: SpecificDerivedPropertyValue + ?Sized>(obj: &T) -> DerivedPropertyValue;\n", '')),
         Impl(r'pub\s+trait\s+StringClass\b', [
-            Fn('get_value_from_char', ret='r', ensures=[('C02.value', 'r == self.value(c)')]),
+            Fn('get_value_from_char', ret='r', ensures=[('C02+C14.value', 'r == self.value(c)')]),
             Fn('get_value_from_codepoint', ret='r'),
             Fn('allows', ret='r',
                ensures=[('C02.allows', 'r == allows_spec(|c: char| self.value(c), as_ref_view(&label))')],
